@@ -27,7 +27,11 @@ Uncanon(c) == IF c.start = None THEN Empty(c.nv)
               ELSE Mk(c.nv, [dcl \in U \X (1..c.nv) |->
                       IF dcl[1] >= c.start /\ dcl[1] < c.start + Len(c.rows) THEN c.rows[dcl[1] - c.start + 1][dcl[2]] ELSE NaN])
 
-Ser(f, c, desc) == [kind |-> "ser", f |-> f, c |-> c, desc |-> desc]
+\* lz ("loose"): the stored span of the object need only cover its observations (after clip, a CSV or a dataslate round trip) - the
+\* statement of C10 fixes the trimmed span after writes and arithmetic only; operations whose outcome depends on the stored span of
+\* such an object (overlay / underlay with it on top) are not specified and are not taken
+Ser(f, c, desc) == [kind |-> "ser", f |-> f, c |-> c, desc |-> desc, lz |-> FALSE]
+Loosen(it)      == IF it.kind = "ser" THEN [it EXCEPT !.lz = TRUE] ELSE it
 Num(v)          == [kind |-> "num", v |-> v]
 S1(start, vals) == Canon(Mk(1, [dcl \in U \X (1..1) |-> IF dcl[1] >= start /\ dcl[1] < start + Len(vals) THEN vals[dcl[1] - start + 1] ELSE NaN]))
 S2(start, rows) == Canon(Mk(2, [dcl \in U \X (1..2) |-> IF dcl[1] >= start /\ dcl[1] < start + Len(rows) THEN rows[dcl[1] - start + 1][dcl[2]] ELSE NaN]))
@@ -112,6 +116,7 @@ LayOp(h, g, which) ==
     /\ LET ns == LayNames(heap, box[h], box[g]) ids == {box[h][n] : n \in ns} IN
        /\ ns # {}
        /\ \A n \in ns : box[h][n] # box[g][n]          \* an object overlaid on itself is not specified
+       /\ \A n \in ns : ~heap[IF which = "overlay" THEN box[g][n] ELSE box[h][n]].lz      \* the series on top has its trimmed span
        /\ \A n1, n2 \in ns : n1 # n2 => box[h][n1] # box[h][n2]
        /\ heap' = [id \in 1..Len(heap) |->
                      IF id \in ids
@@ -125,7 +130,7 @@ LayOp(h, g, which) ==
 DbClip(h, f, lo, hi) ==
     /\ LET ids == {box[h][n] : n \in {x \in Names(h) : SerF(heap, box[h][x]) = f}} IN
        /\ ids # {}
-       /\ heap' = [id \in 1..Len(heap) |-> IF id \in ids THEN [heap[id] EXCEPT !.c = ClipC(heap[id].c, lo, hi)] ELSE heap[id]]
+       /\ heap' = [id \in 1..Len(heap) |-> IF id \in ids THEN [heap[id] EXCEPT !.c = ClipC(heap[id].c, lo, hi), !.lz = TRUE] ELSE heap[id]]
        /\ last' = [op |-> <<"clip", f, lo, hi>>, h |-> h, g |-> h, k |-> h, ids |-> ids]
     /\ box' = box
 \* prepend: a copy of g is clipped to ..endp (clip acts on the series of the frequency of endp only) and then underlaid
@@ -135,6 +140,7 @@ Prepend(h, g, f, endp) ==
     /\ LET ns == LayNames(heap, box[h], box[g]) ids == {box[h][n] : n \in ns} IN
        /\ \E n \in ns : SerF(heap, box[h][n]) = f
        /\ \A n1, n2 \in ns : n1 # n2 => box[h][n1] # box[h][n2]
+       /\ \A n \in ns : ~heap[box[h][n]].lz
        /\ heap' = [id \in 1..Len(heap) |->
                      IF id \in ids
                      THEN LET n == CHOOSE x \in ns : box[h][x] = id IN
@@ -149,7 +155,7 @@ CsvRoundTrip(h, k, sel, descrow) ==
     /\ LET q == SelectSeq(SelSeq(h, sel), LAMBDA n : IsSer(heap, box[h][n])) IN
        /\ \A i, j \in 1..Len(q) : i # j => q[i] # q[j]
        /\ q # <<>>
-       /\ heap' = Alloc(heap, [i \in 1..Len(q) |-> IF descrow THEN heap[box[h][q[i]]] ELSE [heap[box[h][q[i]]] EXCEPT !.desc = ""]])
+       /\ heap' = Alloc(heap, [i \in 1..Len(q) |-> Loosen(IF descrow THEN heap[box[h][q[i]]] ELSE [heap[box[h][q[i]]] EXCEPT !.desc = ""])])
        /\ box' = [box EXCEPT ![k] = [n \in {q[i] : i \in 1..Len(q)} |-> NextId - 1 + (CHOOSE i \in 1..Len(q) : q[i] = n)]]
     /\ last' = [op |-> <<"csv", sel, descrow>>, h |-> h, g |-> h, k |-> k, ids |-> {}]
 \* databox -> dataslate on lo..hi (frequency f) -> databox: the input values on the span, NaN elsewhere;
@@ -168,8 +174,8 @@ SlateRoundTrip(h, k, names, f, lo, hi, fbn, own) ==
                 ELSE heap[box[h][names[i]]].f = f /\ heap[box[h][names[i]]].c.nv = 1)
           ELSE names[i] = fbn
     /\ heap' = Alloc(heap, [i \in 1..Len(names) |->
-                  Ser(f, SlateItem(IF names[i] \in Names(h) THEN heap[box[h][names[i]]] ELSE NoItem, lo, hi,
-                                   IF names[i] = fbn THEN 9 ELSE None, IF names[i] = own THEN 7 ELSE None), "")])
+                  Loosen(Ser(f, SlateItem(IF names[i] \in Names(h) THEN heap[box[h][names[i]]] ELSE NoItem, lo, hi,
+                                          IF names[i] = fbn THEN 9 ELSE None, IF names[i] = own THEN 7 ELSE None), ""))])
     /\ box' = [box EXCEPT ![k] = [n \in {names[i] : i \in 1..Len(names)} |-> NextId - 1 + (CHOOSE i \in 1..Len(names) : names[i] = n)]]
     /\ last' = [op |-> <<"slate", names, f, lo, hi, fbn, own>>, h |-> h, g |-> h, k |-> k, ids |-> {}]
 
